@@ -17,9 +17,10 @@ from yatiml.recognizer import Recognizer
 from vlib import zoo
 from vlib.common import (SYMBOLIC, T_BOOL, T_FLOAT, T_INT, T_MAP, T_NULL,
                          T_SEQ, T_STR, T_TS, install_stubs, mapping, note,
-                         pick, scalar, seq, slice_no, tree_sig)
+                         pick, scalar, seq, slice_no, tier, tree_sig)
 
 install_stubs()
+QUICK = tier() == 'quick'
 
 ENCODED = [
     'yatiml.helpers.UnknownNode.require_scalar/require_mapping/'
@@ -223,7 +224,7 @@ def attr_value(top: int, n: int, kk1: int, kk2: int, vk1: int, vtag1: str,
                negate: bool) -> bool:
     """
     pre: 0 <= top < 3 and 0 <= n <= 2 and 0 <= kk1 < 4 and 0 <= kk2 < 4
-    pre: 0 <= vk1 < 3 and 0 <= vk2 < 3 and 0 <= vv1 < 6 and 0 <= vv2 < 6
+    pre: 0 <= vk1 < 3 and 0 <= vk2 < 3 and 0 <= vv1 < 8 and 0 <= vv2 < 8
     pre: len(vtag1) <= 30 and len(vtag2) <= 30 and len(attr) <= 5
     pre: 0 <= pv < 10
     post: __return__
@@ -231,8 +232,10 @@ def attr_value(top: int, n: int, kk1: int, kk2: int, vk1: int, vtag1: str,
     s = slice_no(-1)
     if s >= 0 and pv != s:
         return True
+    if QUICK and (vv1 > 5 or vv2 > 5):
+        return True
     if n == 2 and (kk2 != 0 or vk2 != 0 or kk1 != 0 or vk1 == 1
-                   or vv2 > 2):
+                   or vv2 > (2 if QUICK else 4)):
         return True         # second entry: only a duplicate 'k' scalar varies
     if n < 2 and (vv2 != 0 or vtag2 != ''):
         return True
@@ -245,7 +248,7 @@ def attr_value_reach(top: int, n: int, kk1: int, kk2: int, vk1: int,
                      attr: str, pv: int, negate: bool) -> bool:
     """
     pre: 0 <= top < 3 and 0 <= n <= 2 and 0 <= kk1 < 4 and 0 <= kk2 < 4
-    pre: 0 <= vk1 < 3 and 0 <= vk2 < 3 and 0 <= vv1 < 6 and 0 <= vv2 < 6
+    pre: 0 <= vk1 < 3 and 0 <= vk2 < 3 and 0 <= vv1 < 8 and 0 <= vv2 < 8
     pre: len(vtag1) <= 30 and len(vtag2) <= 30 and len(attr) <= 5
     pre: 0 <= pv < 10
     post: __return__
@@ -253,8 +256,9 @@ def attr_value_reach(top: int, n: int, kk1: int, kk2: int, vk1: int,
     s = slice_no(-1)
     if s >= 0 and pv != s:
         return True
-    if n == 2 and (kk2 != 0 or vk2 != 0 or kk1 != 0 or vk1 == 1
-                   or vv2 > 2):
+    if vv1 > 5 or vv2 > 2:
+        return True
+    if n == 2 and (kk2 != 0 or vk2 != 0 or kk1 != 0 or vk1 == 1):
         return True
     if n < 2 and (vv2 != 0 or vtag2 != ''):
         return True
@@ -386,7 +390,7 @@ CONDITIONS = [
      'bound': 'one slice per required value (10: strs, ints, floats, '
               'bools, None): wrapped node mapping/scalar/sequence, <= 2 '
               'entries (4 key kinds; the 2nd entry only a duplicate scalar '
-              'k), value scalar with FREE tag and 6 spellings or a '
+              'k), value scalar with FREE tag and 8 (quick 6) spellings or a '
               'collection, FREE attribute name (len<=5), both '
               'require_attribute_value and _value_not'},
     {'fn': 'attr_value_reach', 'slices': [1], 'quick': 100, 'thorough': 100,
